@@ -634,6 +634,7 @@ def suffix_decl(d, sfx):
                 out.append(rp(x))
         return out
     d['layout'] = rl(d['layout'])
+    d['err_alias'] = 'Failure' + sfx
     return d
 
 
